@@ -968,7 +968,12 @@ func (db *DB) deleteRows(t *Table, victims [][]any, depth int) *Error {
 		return verr
 	}
 	// surviving rows that reference a deleted row
-	for tt, rows := range goneRows {
+	for _, tn := range db.TableNames() { // fixed order: the first error found must not depend on map order
+		tt := db.tables[tn]
+		rows := goneRows[tt]
+		if len(rows) == 0 {
+			continue
+		}
 		for _, ref := range db.referencing(tt) {
 			if ref.fk.onDelete == "CASCADE" {
 				continue
